@@ -1,5 +1,5 @@
 From Coq Require Import Extraction ExtrOcamlBasic.
-From LTV.C19 Require Import Model.
+From LTV.C19 Require Import Model AModel.
 Set Extraction Optimize.
 Extraction Language OCaml.
-Extraction "extracted/c19_model.ml" init run run2 due_of.
+Extraction "extracted/c19_model.ml" init run run2 due_of ainit arun2.
